@@ -83,6 +83,7 @@ def handler : Handler := fun op j =>
     let p ← progOfJson j
     let tags := progTags p
     some (ok (jObj [("tag", jS (tagToString (check p))),
+                    ("fast", jS (tagToString (checkFast p))),
                     ("tags", jArr (tags.map (fun t => jS (tagToString t)))),
                     ("first_bad", match firstBad tags p.nin with | some k => jN k | none => Json.null)]))
   | "run" => do
